@@ -543,6 +543,14 @@ struct Exec {
       const std::string c = t[2];
       log.str(c);
       if (c == "reset") { default_workspace(s, t.size() > 3 ? (int)(sim::iparse(t[3]) & 3) : 0); }
+      else if (c == "zero") {
+         // the C idiom `gm2calc_SM sm = {0};` / memset: a struct whose every field is zero
+         const std::string which = t.size() > 3 ? t[3] : "sm";
+         if (which == "sm") std::memset(&s.sm, 0, sizeof s.sm);
+         else if (which == "mb") { const auto y = s.mb.yukawa_type; std::memset(&s.mb, 0, sizeof s.mb); s.mb.yukawa_type = y; }
+         else if (which == "gb") { const auto y = s.gb.yukawa_type; std::memset(&s.gb, 0, sizeof s.gb); s.gb.yukawa_type = y; }
+         else if (which == "ckm") { std::memset(&s.sm.ckm_real, 0, sizeof s.sm.ckm_real); std::memset(&s.sm.ckm_imag, 0, sizeof s.sm.ckm_imag); }
+      }
       else if (c == "mb" || c == "gb" || c == "sm") {
          if (t.size() < 7) return;
          double* p = ws_field(s, c, t[3], (unsigned)sim::iparse(t[4]), (unsigned)sim::iparse(t[5]));
